@@ -273,6 +273,26 @@ func suiteStrFun(o *Out, thorough bool, seed int64) {
 			ev("replace(" + a + ", " + b + ", 'X')")
 			ev("replace(" + a + ", " + b + ", " + b + ")")
 		}
+		// the empty pattern matches before every character and at the end: text from the data, so that bytes that
+		// are not UTF-8 arrive as they are
+		for _, nw := range []string{"", "-", "\u00e9", "\xff"} {
+			if len(s) > 3 {
+				break
+			}
+			for _, u := range []string{"\u00e9", "\u0800", "\U0001f600", "\xff", "\xc3", "\xed\xa0\x80", "\xf0\x9f", "\xe2\x82", "\xf4\x90\x80\x80", "\xc0\x80"} {
+				su := s + u + s
+				obs := emitEval(o, "replace(s, '', n)", 0, "-", wmap("s", ws(su), "n", ws(nw)), true)
+				if want := "V " + ws(strings.ReplaceAll(su, "", nw)); resultOf(obs) != want {
+					o.Fail(fmt.Sprintf("EV\t%s\t0\t-\t%s", hx([]byte("replace(s, '', n)")), wmap("s", ws(su), "n", ws(nw))), "replace with an empty pattern does not put the new text in front of every character and at the end: "+resultOf(obs)+", required "+want)
+				}
+			}
+		}
+		for _, nw := range []string{"", "-", "\u00e9", "\xff"} {
+			obs := emitEval(o, "replace(s, '', n)", 0, "-", wmap("s", ws(s), "n", ws(nw)), true)
+			if want := "V " + ws(strings.ReplaceAll(s, "", nw)); resultOf(obs) != want {
+				o.Fail(fmt.Sprintf("EV\t%s\t0\t-\t%s", hx([]byte("replace(s, '', n)")), wmap("s", ws(s), "n", ws(nw))), "replace with an empty pattern does not put the new text in front of every character and at the end: "+resultOf(obs)+", required "+want)
+			}
+		}
 		a := strLit(s)
 		for n := -2; n <= len(s)+2; n++ {
 			l, r := ev(fmt.Sprintf("left(%s, %d)", a, n)), ev(fmt.Sprintf("right(%s, %d)", a, n))
